@@ -7,6 +7,8 @@ import Qryn.LogQL.SameShapeDec
 import Qryn.Tempo.SearchSegs
 import Qryn.Read.RawSqlTable
 import Driver.C07X
+import Driver.C08
+import Qryn.LogQL.SameShapeMetric
 namespace Driver.C10
 open Qryn Qryn.Lex Qryn.Sql
 
@@ -56,6 +58,14 @@ def handle : List String → Option String
     let m2 ← Driver.C07.list? Driver.C07.matcher? ms2
     let s2 ← Driver.C07.list? Driver.C07X.scriptStage? st2
     some (if decide (LogQL.sameScript m1 m2 s1 s2) then "1" else "0")
+  | "c10sameshapem" :: rest => do
+    -- two serialised metric queries separated by the token `|`
+    let a := rest.takeWhile (· != "|")
+    let b := (rest.dropWhile (· != "|")).drop 1
+    let (q1, r1) ← Driver.C08.query? a
+    let (q2, r2) ← Driver.C08.query? b
+    if !r1.isEmpty || !r2.isEmpty then none else
+    some (if decide (LogQL.sameShapeM q1 q2) then "1" else "0")
   | ["c10tempo", fromNs, toNs, minDur, maxDur, limit, v2, idxTable, tracesTable, tags] => do
     let f ← fromNs.toInt?
     let t ← toNs.toInt?
